@@ -6,18 +6,31 @@ HERE = os.path.dirname(os.path.dirname(os.path.abspath(__file__)))
 BASELINE_OFF = ("cd /repo && env -u LANL_EXACTPACK_VERIF /venv/bin/python -m pytest -ra -q -p no:cacheprovider "
                 "--timeout=900 --continue-on-collection-errors")
 
-# id -> (technique, level text, level note, design ref)
-CLAIMED = {
-    'C03': ('Hypothesis property-based testing: generated parameters/points/times per solver family, algebraic EOS identity oracle',
-            'Generated-input exploration: every solver family that returns >=3 thermodynamic fields is called with '
-            'generated admissible parameters (all geometries, non-default gamma/EOS constants, both sides of every '
-            'discontinuity) and the declared EOS identities are evaluated on the fields of one call. It samples the '
-            'parameter space, it does not cover it; evidence reports the label histogram actually reached.',
-            'Trusts numpy arithmetic and the harness recipes (parameter domains read from constructors/docstrings). '
-            'Interpolating solvers are compared away from transition cells / at table nodes. Guderley only at gamma in {2,3} in quick.',
-            'DESIGN.md 3/C03'),
-}
+sys.path.insert(0, HERE)
+sys.path.insert(0, '/repo')
+os.environ.setdefault('MPLBACKEND', 'Agg')
 
+DEFAULT_TEXT = ('Generated-input exploration with an explicit oracle (see technique and the rule in the evidence file). It samples the '
+                'input space with measured label histograms; it does not establish absence of violations.')
+DEFAULT_NOTE = ('Trusts numpy/scipy arithmetic, Hypothesis generation and the harness recipes (admissible parameter domains read from '
+                'constructors/docstrings); tolerances per DESIGN.md 2.5; recorded defects are listed in known_findings.json.')
+
+
+def claimed():
+    import glob, importlib
+    out = {}
+    for f in sorted(glob.glob(os.path.join(HERE, 'vp', 'props', 'c[0-9][0-9].py'))):
+        pid = os.path.basename(f)[:-3].upper()
+        m = importlib.import_module('vp.props.' + pid.lower())
+        meta = getattr(m, 'META', {})
+        if not getattr(m, 'OBLIGATIONS', None) or meta.get('claim') is False:
+            continue
+        out[pid] = (meta.get('technique', 'Hypothesis property-based testing'), meta.get('level_text', DEFAULT_TEXT),
+                    meta.get('level_note', DEFAULT_NOTE) + ' ' + ' '.join(meta.get('assumptions', [])), 'DESIGN.md section 3 / ' + pid)
+    return out
+
+
+CLAIMED = claimed()
 NOT_YET = {}
 
 
